@@ -189,6 +189,27 @@ def build_package(idx: int, sigs: list, rng) -> tuple[dict, list]:
                     gt.append({"id": f"pk/{mod}/{cname}/{name}", "mod": mod, "path": f"{cname}/{name}", "role": "class", "params": params, "receiver": recv})
                 i += 1
             lines.append("\n")
+    # methods of a private base class are shown in EVERY public subclass: the same source method is rendered several times
+    for j in range(min(6, n // 8)):
+        mod = "m1" if j % 2 == 0 else "m2"
+        lines = mod_lines[mod]
+        base = f"_PB{idx}x{j}"
+        lines.append(f"class {base}:\n")
+        members = []
+        for k in range(rng.randint(2, 3)):
+            params = sigs[rng.randrange(n)]
+            kind = rng.choice(["inst", "inst", "static", "class"])
+            name = f"{kind[0]}b_{j}_{k}"
+            recv = {"inst": "self", "static": None, "class": "cls"}[kind]
+            deco = {"inst": "", "static": "    @staticmethod\n", "class": "    @classmethod\n"}[kind]
+            lines.append(f"{deco}    def {name}({render_params(params, recv)}) -> None: ...\n\n")
+            members.append((name, kind, params, recv))
+        lines.append("\n")
+        for sub in "abc"[: rng.randint(2, 3)]:
+            sname = f"Sub{idx}x{j}{sub}"
+            lines.append(f"class {sname}({base}):\n    def own_{sub}(self) -> None: ...\n\n\n")
+            for name, kind, params, recv in members:
+                gt.append({"id": f"pk/{mod}/{base}/{name}", "mod": mod, "path": f"{sname}/{name}", "role": kind + "-inherited", "params": params, "receiver": recv})
     files = {"src/pk/__init__.py": ""}
     for mod, lines in mod_lines.items():
         files[f"src/pk/{mod}.py"] = header + "".join(lines)
